@@ -13,6 +13,7 @@ harness decide how many bytes a read(2) returns.  Log files are real files.
 History operations (mirroring coq/C07/World.v:wop):
   ('spawn', p, outcome)   outcome = 'ok' | 'forkfail' | ('pipefail', k)
   ('write', p, chan, bytes)   the child of p writes on 'stdout'/'stderr'
+  ('writegen', p, chan, n, seed)  the same with gen_data(n, seed) (large bursts; <= 64 KiB unread per pipe)
   ('read', p, chan, n)        p's pipe is reported readable; read(2) returns <= n bytes;
                               routed through the real Supervisor.get_process_map()
   ('exit', p)                 the child exits
@@ -26,6 +27,14 @@ import fcntl as real_fcntl
 import vlib
 
 vlib.ensure_impl_path()
+
+
+PIPE_CAPACITY = 65536      # Linux default pipe capacity: a child cannot have more unread bytes in a pipe
+
+
+def gen_data(n, seed):
+    """Mirror of World.gen_bytes."""
+    return bytes(((i * 7 + seed) % 251) for i in range(n))
 
 
 class Kernel(object):
@@ -259,11 +268,14 @@ class Seam(object):
                 redirect = self.cfgs[p][0]
                 self.child[p] = {'stdout': made[1], 'stderr': made[1] if redirect else made[2], 'alive': True}
                 self.written[p].append({'stdout': b'', 'stderr': b''})
-        elif kind == 'write':
-            p, chan, data = o[1], o[2], o[3]
+        elif kind in ('write', 'writegen'):
+            p, chan = o[1], o[2]
+            data = o[3] if kind == 'write' else gen_data(o[3], o[4])
             proc = self.procs[p]
             ch = self.child[p]
             if proc.pid and ch and ch['alive'] and chan in ('stdout', 'stderr'):
+                if len(k.pipes[ch[chan]]['buf']) + len(data) > PIPE_CAPACITY:
+                    raise ValueError('history exceeds the pipe capacity (generator error)')
                 k.pipes[ch[chan]]['buf'] += data
                 eff = 'stdout' if self.cfgs[p][0] else chan
                 self.written[p][-1][eff] += data
@@ -469,3 +481,30 @@ def history_job(job):
         import traceback
         return None, 'exception: ' + traceback.format_exc()[-1500:], []
     return trace, None, judge(cfgs, strip, info, _TOK[0], _TOK[1])
+
+
+def finish_job(job):
+    """C08 through the real Subprocess.finish(): job = (stream, cut, capmax).  The child writes
+    stream[:cut], the main loop reads it; then it writes stream[cut:] and exits; the rest is
+    still in the pipe when the child is reaped (drain + final flush inside finish()).
+    -> (log bytes, [PROCESS_COMMUNICATION data], failure text or None)"""
+    s, cut, cap = job
+    cfgs = [(False, cap, 0, False, False)]
+    ops = [('spawn', 0, 'ok')]
+    if cut > 0:
+        ops += [('write', 0, 'stdout', s[:cut]), ('read', 0, 'stdout', 3000)]
+    if cut < len(s):
+        ops.append(('write', 0, 'stdout', s[cut:]))
+    ops += [('exit', 0), ('reap', 0)]
+    try:
+        trace, info = _SEAM.run(cfgs, False, 3, ops)
+    except HarnessFailure as e:
+        return None, None, str(e)
+    except Exception:
+        import traceback
+        return None, None, 'exception: ' + traceback.format_exc()[-1500:]
+    comm = [d for (k, p, pid, ch, d) in info['events'] if k == 1]
+    for (k, p, pid, ch, d) in info['events']:
+        if k == 1 and (p != 0 or pid != 1000 or ch != CH_CODE['stdout']):
+            return None, None, 'PROCESS_COMMUNICATION event with wrong process/pid/channel'
+    return info['logs'][0][0], comm, None
